@@ -1006,6 +1006,8 @@ func replay(cfg *lib.Config, res *lib.Result) {
 		switch x.Kind {
 		case "history":
 			replayHistory(in, res, cfg)
+		case "mutable-hash":
+			replayMutable(in, res)
 		case "value":
 			v := x.V.Build()
 			pt, dt := v.PType(), px.DetailedValueType(v)
